@@ -18,7 +18,7 @@ from .condprops import cond_decl, prior_decl
 PROP = "C12"
 
 BOUNDS = {
-    "quick": "R in {2,3}; index arrays of length 1-2 from a fixed set with repeats, negatives and permutations (6 per scenario); scenarios: evaluate / slice-of-slice for every factor, measure, density and conditional class, integrals with per-component coefficients, multiply (i*R2+j) and hadamard for every factor kind, density operations (entropy, KL, marginal, conditioning, linear sum), cond(x) for N points (r*N+n), set_y paired, the three transformations with the batch on either side, information quantities, update(idx, d); D=2, Dx+Dy<=3",
+    "quick": "R in {2,3} (D=2) and R in {5,6} (D=1, unary operations); index arrays of length 1-2 from a fixed set with repeats, negatives and permutations (6 per scenario); scenarios: evaluate / slice-of-slice for every factor, measure, density and conditional class, integrals with per-component coefficients, multiply (i*R2+j) and hadamard for every factor kind, density operations (entropy, KL, marginal, conditioning, linear sum), cond(x) for N points (r*N+n), set_y paired, the three transformations with the batch on either side, information quantities, update(idx, d); D=2, Dx+Dy<=3",
     "thorough": "all index arrays of length <=2 over range(-R,R) for R=2,3 plus length-3 samples; (2,2) transformations semi-symbolic",
 }
 ASSUMPTIONS = ["index arrays are enumerated, not solver variables (gather with a symbolic index has no counterpart in the normal form): the claim is for the listed arrays and every parameter value"]
@@ -93,15 +93,18 @@ def cases(tier, seed=0):
         return jnp.ones((n,))
 
     # ------------------------------------------------------------------ factors / measures / densities: unary
-    for kind in ("conjugate", "onerank", "linear", "constant", "measure", "diagmeasure", "pdf", "diagpdf"):
-        for R in (2, 3):
-            idxs = idx_set(R, tier)
+    unary_cfgs = [(kind, R, 2) for kind in ("conjugate", "onerank", "linear", "constant", "measure", "diagmeasure", "pdf", "diagpdf") for R in (2, 3)]
+    # larger batches (the quantifier goes to R=6): one-dimensional components keep the expressions small
+    unary_cfgs += [(kind, R, 1) for kind in ("onerank", "measure", "pdf") for R in (5, 6)]
+    for (kind, R, Dn) in unary_cfgs:
+        if True:
+            idxs = idx_set(R, tier) if Dn == 2 else [[R - 1], [-1, 0], [3, 3], [-R, R - 2], [2, 4]]
 
-            def declare(b, kind=kind, R=R):
-                declare_factor(b, kind, "f_", R, D); b.free("x", (2, D))
+            def declare(b, kind=kind, R=R, Dn=Dn):
+                declare_factor(b, kind, "f_", R, Dn); b.free("x", (2, Dn))
 
-            def run(A, idx, kind=kind, R=R):
-                f = make_factor(kind, "f_", A, D)
+            def run(A, idx, kind=kind, R=R, Dn=Dn):
+                f = make_factor(kind, "f_", A, Dn)
                 x = A["x"]
                 fs = f.slice(J(idx))
                 lhs = {"eval": f.evaluate_ln(x)[J(idx)], "slice_fields": {k: v[J(idx)] for k, v in _obj(f).items() if k in ("Lambda", "nu", "ln_beta")},
@@ -128,7 +131,7 @@ def cases(tier, seed=0):
                                 "logfac_linear": o.integrate("log u(x)", factor=g2), "logfac_shared": o.integrate("log u(x)", factor=gs)}
                     ll, lr = lf(f), lf(fs, idx)
                     lhs.update({k: v[J(idx)] for k, v in ll.items()}); rhs.update(lr)
-                if kind in ("measure", "pdf") and R == 2:
+                if kind in ("measure", "pdf") and R == 2 and Dn == 2:
                     def hi(o):
                         # third / fourth order integrals with PER-COMPONENT coefficients taken from the object's own fields
                         return {"cub_in": o.integrate("(Ax+a)(Bx+b)'(Cx+c)", A_mat=o.Lambda, a_vec=o.nu, B_mat=o.Lambda, C_mat=o.Lambda, c_vec=o.nu),
@@ -141,11 +144,11 @@ def cases(tier, seed=0):
                     hl, hr = hi(f), hi(fs)
                     lhs.update({k: v[J(idx)] for k, v in hl.items()}); rhs.update(hr)
                 if kind in ("pdf", "diagpdf"):
-                    lhs.update({"H": f.entropy()[J(idx)], "marg": {k: v[J(idx)] for k, v in _obj(f.get_marginal(J([1]))).items()},
+                    lhs.update({"H": f.entropy()[J(idx)], "marg": {k: v[J(idx)] for k, v in _obj(f.get_marginal(J([Dn - 1]))).items()},
                                 "kl": f.kl_divergence(f.slice(J([0])))[J(idx)]})
-                    rhs.update({"H": fs.entropy(), "marg": _obj(fs.get_marginal(J([1]))), "kl": fs.kl_divergence(f.slice(J([0])))})
+                    rhs.update({"H": fs.entropy(), "marg": _obj(fs.get_marginal(J([Dn - 1]))), "kl": fs.kl_divergence(f.slice(J([0])))})
                 return lhs, rhs
-            out.append(scenario_case(f"unary/{kind}/R{R}", declare, run, idxs, dict(op="evaluate/slice/integrals", kind=kind, R=R, D=D)))
+            out.append(scenario_case(f"unary/{kind}/R{R}" + ("" if Dn == 2 else f"D{Dn}"), declare, run, idxs, dict(op="evaluate/slice/integrals", kind=kind, R=R, D=Dn)))
 
     # ------------------------------------------------------------------ products
     def mk_u(A, ukind):
@@ -241,9 +244,11 @@ def cases(tier, seed=0):
     # ------------------------------------------------------------------ conditionals
     for kind in ("full", "diag", "identity", "identitydiag"):
         ident = kind.startswith("identity")
-        for (Dx, Dy) in ([(2, 2)] if ident else [(2, 1), (1, 2)]):
+        for (Dx, Dy) in ([(2, 2), (1, 1)] if ident else [(2, 1), (1, 2), (1, 1)]):
             Rc = 3 if Dx + Dy <= 3 and tier != "quick" else 2
             idxs = idx_set(Rc, "quick") if tier == "quick" else idx_set(Rc, tier)[:20]
+            if (Dx, Dy) == (1, 1):      # a larger batch in dimension one
+                Rc = 5; idxs = [[4], [-1, 0], [3, 3], [-5, 2], [1, 4]]
             semi = ("Sx",) if (Dx, Dy) == (2, 2) else ()
 
             def declare(b, kind=kind, Dx=Dx, Dy=Dy, Rc=Rc, semi=semi):
@@ -271,9 +276,11 @@ def cases(tier, seed=0):
                                      dict(op="cond(x) [r*N+n], set_y paired, joint/marginal/conditional transformation, entropies; batch of conditionals", conditional=kind, Dx=Dx, Dy=Dy, R_cond=Rc, R_x=1), timeout=900))
     for kind in ("full", "diag", "identity", "identitydiag", "nncontrol"):
         ident = kind.startswith("identity")
-        for (Dx, Dy) in ([(2, 2)] if ident else [(2, 1), (1, 2)]):
+        for (Dx, Dy) in ([(2, 2), (1, 1)] if ident else [(2, 1), (1, 2), (1, 1)]):
             Rx = 3 if tier != "quick" else 2
             idxs = idx_set(Rx, "quick") if tier == "quick" else idx_set(Rx, tier)[:20]
+            if (Dx, Dy) == (1, 1):
+                Rx = 6; idxs = [[5], [-1, 0], [3, 3], [-6, 2], [1, 4]]
             semi = ("Sy",) if (Dx, Dy) == (2, 2) else ()
 
             def declare(b, kind=kind, Dx=Dx, Dy=Dy, Rx=Rx, semi=semi):
